@@ -1,6 +1,6 @@
 """C17 -- date serial numbers form Excel's 1900 calendar.
 
-Spec: spec/Calendar.tla.  Five machines in one module:
+Spec: spec/Calendar.tla.  Six machines in one module:
   cal    the day-successor machine (n, y, m, d, wd) from 1900-01-00 to
          9999-12-31, compared by TLC at every state with the closed forms
          DateSerial / Parts / Zeller (thorough: all 2 958 466 days are states;
@@ -12,9 +12,12 @@ Spec: spec/Calendar.tla.  Five machines in one module:
   yf     YEARFRAC argument pairs, their swaps and the bases 0..4;
   frac   arguments with a fraction (quarters): DATE(y, m, d) along lines of the
          -40..60 grid, EOMONTH / EDATE from every quarter of a start day (a
-         date-time) with the months argument walking by quarters.  The
-         functions use the whole part; for a negative argument truncation
-         and floor are both allowed.
+         date-time, day 0 included) with the months argument walking by
+         quarters.  The functions use the whole part; for a negative argument
+         truncation and floor are both allowed.
+TLC runs twice on the same machines and constants: once checking the laws and
+printing the vectors, once without laws under -coverage to see that every
+action is taken (the state counts of the two runs must agree).
 Binding: TLC prints one vector per state (the calendar machine: one line per
 month start; the days in between are derived from consecutive lines of TLC's
 output only).  Every vector is executed on the real pycel functions through
@@ -158,12 +161,17 @@ class Judge:
 # ---------------------------------------------------------------------------
 # TLC
 
-def wrapper(tier, modes, rnd, tag):
+def wrapper(tier, modes, rnd, tag, laws=True):
     """a wrapper module/cfg in a scratch dir that runs only `modes`
-    (thorough tier: adds seeded random starts, days and years)"""
+    (thorough tier: adds seeded random starts, days and years);
+    laws=False: the same machines and constants without any INVARIANT /
+    PROPERTY (and so without the export) -- the run that counts the actions"""
     d = tlc.new_scratch('cal' + tag)
     base = 'Calendar_mc.cfg' if tier == 'quick' else 'Calendar_big.cfg'
     cfg = open(os.path.join(tlc.SPEC, base)).read()
+    if not laws:
+        cfg = '\n'.join(line for line in cfg.splitlines()
+                        if not line.startswith(('INVARIANT', 'PROPERTY'))) + '\n'
     mod = 'MC_Calendar_' + tag
     body = [f'---- MODULE {mod} ----', 'EXTENDS MC_Calendar',
             'RunModes == {' + ', '.join(f'"{m}"' for m in modes) + '}']
@@ -192,12 +200,18 @@ def wrapper(tier, modes, rnd, tag):
     return mod, d
 
 
-def run_tlc(tier, modes, rnd, tag, workers, coverage, out):
+def run_tlc(tier, modes, rnd, tag, workers, coverage, out, heap='6g'):
+    """coverage=False: check the laws and export the vectors;
+    coverage=True: only count how often every action is taken.  TLC's
+    coverage instrumentation expands every definition at every reference
+    (the nested LETs of ShiftLaws / FracLaws alone cost a minute of start-up),
+    so the laws are never evaluated under it: the two runs explore the same
+    state space and are compared by their state counts."""
     try:
-        mod, d = wrapper(tier, modes, rnd, tag)
+        mod, d = wrapper(tier, modes, rnd, tag, laws=not coverage)
         res = tlc.run(mod, os.path.join(d, 'run.cfg'), spec_dir=d,
                       workers=workers, coverage=coverage, timeout=1700,
-                      library=tlc.SPEC, heap='6g')
+                      library=tlc.SPEC, heap=heap)
         if not res.ok:
             raise tlc.MachineryFailure(
                 f'Calendar model ({tag}) violates {res.violated}:\n'
@@ -386,27 +400,43 @@ def run(tier, seed):
     # machine is started in every century so that the search is wide).
     # thorough: the 2 958 466-state chain in its own single-worker process,
     # the argument machines beside it.
+    # At most 4 TLC workers at a time: laws + export on 3 (thorough: 2 beside
+    # the calendar chain), the action counts on 1.
     out = {}
     if quick:
-        run_tlc(tier, ['cal', 'date', 'shift', 'time', 'yf', 'frac'],
-                random.Random(seed), 'args', 8, True, out)
+        modes, arg_seed = ['cal', 'date', 'shift', 'time', 'yf', 'frac'], seed
         t_cal = None
     else:
+        modes, arg_seed = ['date', 'shift', 'time', 'yf', 'frac'], seed + 1
         t_cal = threading.Thread(target=run_tlc, args=(
             tier, ['cal'], random.Random(seed), 'cal', 1, False, out))
         t_cal.start()
-        run_tlc(tier, ['date', 'shift', 'time', 'yf', 'frac'], random.Random(seed + 1),
-                'args', 8, True, out)
-    res = out['args']
-    if isinstance(res, BaseException):
-        if t_cal:
-            t_cal.join()
-        raise res
+    t_cov = threading.Thread(target=run_tlc, args=(
+        tier, modes, random.Random(arg_seed), 'cov', 1, True, out, '2g'))
+    t_cov.start()
+    run_tlc(tier, modes, random.Random(arg_seed), 'args', 3 if quick else 2, False, out,
+            '2g' if quick else '6g')
+    t_cov.join()
+    res, cov = out['args'], out['cov']
+    for r in (res, cov):
+        if isinstance(r, BaseException):
+            if t_cal:
+                t_cal.join()
+            raise r
+    if (cov.distinct, cov.generated) != (res.distinct, res.generated):
+        raise tlc.MachineryFailure(
+            f'the run that counts the actions explored {cov.distinct} states / '
+            f'{cov.generated} transitions, the run that checks the laws '
+            f'{res.distinct} / {res.generated}')
+    res.coverage = cov.coverage
     for act in ARG_ACTIONS + (('NextDay', 'NextMonth') if quick else ()):
         if res.coverage.get(act, (0, 0))[1] == 0:
             raise tlc.MachineryFailure(f'vacuous: action {act} never taken')
     v.add_tlc(res, 'Calendar_mc (all machines)' if quick
               else 'Calendar_big (date, shift, time, yf, frac)')
+    v.extra['action_count_run'] = dict(
+        what='same machines and constants, no INVARIANT / PROPERTY, -coverage',
+        distinct=cov.distinct, generated=cov.generated, wall_s=round(cov.wall, 2))
     phase['wait_tlc_args'] = round(time.time() - t0, 1)
     if len(res.json) < res.distinct - (0 if not quick else QUICK_CAL_STATES - N_MONTHS - 3):
         raise tlc.MachineryFailure(
